@@ -109,6 +109,10 @@ type pairState struct {
 	// during its call)
 	curHist      []curChange
 	callStartSeq int // commits processed when the current call was started
+	// lookupsUnreliable: a step of this pair did its reference lookups while a
+	// referenced integration was unwound (known finding F30): its rows may be
+	// incomplete, so row comparisons are not judged for it any more
+	lookupsUnreliable bool
 }
 
 type curChange struct {
@@ -837,6 +841,18 @@ func runBubble(t *testing.T, w *World, res *Result, extra Extra, keepLog bool) {
 			}
 			if extra.OnSQL != nil {
 				w.srv.OnSQL = func(owner, kind, sql string) { extra.OnSQL(w, owner, kind, sql) }
+			}
+			if os.Getenv("VERIF_DEBUG_EXEC") != "" {
+				w.srv.OnExecute = func(connID int, owner, sql string, params []fakepg.Value, tx *fakepg.Tx) {
+					if strings.Contains(sql, "select true from") {
+						snap := w.srv.DB.Snapshot()
+						n := 0
+						if ts := snap.Table("public.t_ref0"); ts != nil {
+							n = len(ts.Rows)
+						}
+						w.sched.Log.Add("%d DEBUG lookup %s param=%x committed t_ref0 rows=%d", w.step, owner, params[0], n)
+					}
+				}
 			}
 			theWorld = w
 			defer func() { theWorld = nil }()
